@@ -310,7 +310,15 @@ func (w *docWorld) build(d dDoc) (*jsonapi.Document, *jsonapi.URL, []jsonapi.Res
 		doc.Data = ids
 	case "errors":
 		doc.Errors = testErrors(d.NErrors)
-		if len(prim) == 1 { // a handler that reports errors on a document it had started to fill
+		if d.Coll == "ident" && len(prim) > 0 { // ... or on one whose data is linkage
+			doc.Data = jsonapi.Identifier{Type: d.Primary[0].Type, ID: w.v.id(d.Primary[0].ID)}
+		} else if d.Coll == "idents" {
+			ids := jsonapi.Identifiers{}
+			for _, r := range d.Primary {
+				ids = append(ids, jsonapi.Identifier{Type: r.Type, ID: w.v.id(r.ID)})
+			}
+			doc.Data = ids
+		} else if len(prim) == 1 { // a handler that reports errors on a document it had started to fill
 			doc.Data = prim[0]
 		} else if len(prim) > 1 {
 			col := &jsonapi.Resources{}
@@ -831,6 +839,7 @@ func randDoc(rng *rand.Rand) dDoc {
 		for i := rng.Intn(3); i > 0; i-- { // errors may come with data and included already set
 			d.Primary = append(d.Primary, randDocRes(rng, "t1", ids[i]))
 		}
+		d.Coll = []string{"none", "none", "ident", "idents"}[rng.Intn(4)]
 	}
 	if d.Kind == "ident" || d.Kind == "idents" {
 		d.Coll = "none"
